@@ -200,7 +200,7 @@ def mixinP (ins : List TxIn) : Out Nat :=
     | some _ => .ok 0
 
 /-! ## `RctSigPrunable::consensus_decode` (ringct.rs:712-807) and `Transaction::consensus_decode`
-(transaction.rs:995-1077): `1 + inputs` on a `usize`, `&prefix.inputs[0]`
+(transaction.rs:995-1077): the MLSAG column count `inputs + 1` on a `usize`, `&prefix.inputs[0]`
 
 The decoders of Model/Tx.lean compute over `Nat`, where `1 + inputs` is total. In the Rust, `inputs` is a `usize`
 PARAMETER of the public function `RctSigPrunable::consensus_decode`; the sum is evaluated inside
@@ -214,12 +214,17 @@ def Out.ofOption {α} : Option α → Out α
   | some x => .ok x
   | none => .err
 
-/-- section 2 (ring signatures) with `1 + inputs` explicit -/
+/-- `usize::saturating_add` on `bits` bits -/
+def satAddU (bits a b : Nat) : Nat := min (a + b) (2 ^ bits - 1)
+
+/-- section 2 (ring signatures) with the machine arithmetic of the column count explicit: since the fix commit
+"fix: RctSigPrunable::consensus_decode computes the MLSAG column count with saturating_add" the count is
+`inputs.saturating_add(1)` (it was `1 + inputs`, which overflowed — a panic in checked builds — for `inputs = usize::MAX`) -/
 def sigsDecP (ty inputs mixin : Nat) (b : Bytes) : Out ((List MG × List Clsag) × Bytes) :=
   if ty = 5 ∨ ty = 6 then .ofOption (sigsDec ty inputs mixin b)
   else if ty = 2 ∨ ty = 3 ∨ ty = 4 then .ofOption (sigsDec ty inputs mixin b)
   else
-    (addU 64 "RctSigPrunable::consensus_decode: 1 + inputs" 1 inputs).bind fun cols =>
+    let cols := satAddU 64 inputs 1
     .ofOption ((bind (rep (mgDec cols mixin) 1) fun ms => pure' (ms, ([] : List Clsag))) b)
 
 /-- `RctSigPrunable::consensus_decode(r, rct_type, inputs, outputs, mixin)`: every argument is the caller's -/
